@@ -102,16 +102,19 @@ Observed(c, v, dev, mode, ret) ==
      uptodate |-> c[dev] # "INV" /\ v[dev] = Newest(v),
      srcnewest |-> ret \in Dev => v[ret] = Newest(v),
      srcvalid |-> ret # -1 => (ret \in Dev /\ c[ret] # "INV")]
-Access(dev, mode, bump) ==
+\* (integer-coded arguments mi, b: they appear in the edge labels of TLC's state-graph dump)
+ModeName == <<"R", "W", "RW">>
+Access(dev, mi, b) ==
     /\ (KeepHist => Len(hist) < MaxLen)
-    /\ Legal(dev, mode, bump)
-    /\ LET s == Start(coh, ver, rd, owner, dev, mode)
-       IN /\ coh' = End(s.coh, dev, mode) /\ ver' = ClientVer(ver, dev, s.ret, bump) /\ owner' = s.owner
+    /\ Legal(dev, ModeName[mi], b = 1)
+    /\ LET mode == ModeName[mi]
+           s == Start(coh, ver, rd, owner, dev, mode)
+       IN /\ coh' = End(s.coh, dev, mode) /\ ver' = ClientVer(ver, dev, s.ret, b = 1) /\ owner' = s.owner
           /\ rd' = IF KeepHist THEN s.rd ELSE rd             \* (readers only grow: kept out of the bare state graph)
           /\ last' = Observed(coh, ver, dev, mode, s.ret)
-    /\ hist' = IF KeepHist THEN Append(hist, [dev |-> dev, mode |-> mode, bump |-> bump]) ELSE hist
+    /\ hist' = IF KeepHist THEN Append(hist, [dev |-> dev, mode |-> ModeName[mi], bump |-> (b = 1)]) ELSE hist
     /\ UNCHANGED kind
-Next == \E dev \in Dev, mode \in Modes, bump \in BOOLEAN : Access(dev, mode, bump)
+Next == \E dev \in Dev, mi \in 1..3, b \in 0..1 : Access(dev, mi, b)
 Spec == Init /\ [][Next]_vars
 
 \* ---- the property ---------------------------------------------------------------------------------------------
